@@ -10,6 +10,7 @@ pub trait Inp {
     fn i64(&mut self) -> i64;
     fn u8(&mut self) -> u8;
     fn i8(&mut self) -> i8;
+    fn i16(&mut self) -> i16;
     fn u32(&mut self) -> u32;
     fn usize(&mut self) -> usize;
     fn bool(&mut self) -> bool;
@@ -29,6 +30,7 @@ impl Inp for KaniInp {
     fn i64(&mut self) -> i64 { kani::any() }
     fn u8(&mut self) -> u8 { kani::any() }
     fn i8(&mut self) -> i8 { kani::any() }
+    fn i16(&mut self) -> i16 { kani::any() }
     fn u32(&mut self) -> u32 { kani::any() }
     fn usize(&mut self) -> usize { kani::any() }
     fn bool(&mut self) -> bool { kani::any() }
@@ -63,6 +65,7 @@ impl Inp for VecInp {
     fn i64(&mut self) -> i64 { i64::from_le_bytes(self.take::<8>()) }
     fn u8(&mut self) -> u8 { self.take::<1>()[0] }
     fn i8(&mut self) -> i8 { self.take::<1>()[0] as i8 }
+    fn i16(&mut self) -> i16 { i16::from_le_bytes(self.take::<2>()) }
     fn u32(&mut self) -> u32 { u32::from_le_bytes(self.take::<4>()) }
     fn usize(&mut self) -> usize { u64::from_le_bytes(self.take::<8>()) as usize }
     fn bool(&mut self) -> bool { self.take::<1>()[0] & 1 == 1 }
